@@ -1,6 +1,7 @@
 package engine
 
 import (
+	"go/types"
 	"fmt"
 	"go/token"
 	"regexp"
@@ -140,6 +141,24 @@ func runC16Struct(c *Ctx, wl *walkLayers) {
 			if !typeEmpty {
 				scope = append(scope, "the unscoped rule set is consulted although the set registered for the object's type was not found empty")
 			}
+		case isUnscopedField(p, rmExpr):
+			// the unscoped set kept in a field of its own instead of under a sentinel key: same conditions
+			typeEmpty := false
+			for k, v := range pc {
+				if strings.HasPrefix(k, "eq(0,len(v.ruleMap[") && strings.HasSuffix(k, ".Type()]))") && v == 1 {
+					typeEmpty = true
+				}
+				// no type-scoped table at all
+				if strings.HasPrefix(k, "eq(") && strings.Contains(k, "nil") && strings.Contains(k, "v.ruleMap") && !strings.Contains(k, "v.ruleMap[") && v == 1 {
+					typeEmpty = true
+				}
+			}
+			if !hasOuter || outer != 1 {
+				scope = append(scope, "the unscoped rule set is consulted for a nested object")
+			}
+			if !typeEmpty {
+				scope = append(scope, "the unscoped rule set is consulted although the set registered for the object's type was not found empty")
+			}
 		case strings.HasPrefix(rmExpr, "v.ruleMap[") && strings.HasSuffix(rmExpr, ".Type()]"):
 			ty := strings.TrimSuffix(strings.TrimPrefix(rmExpr, "v.ruleMap["), "]")
 			if !strings.HasPrefix(rc.v, strings.TrimSuffix(ty, ".Type()")+".Field(") {
@@ -221,6 +240,64 @@ func runC16Struct(c *Ctx, wl *walkLayers) {
 							bad = append(bad, "the key type is not pointer-stripped (a rule set given for *T would never match values of type T)")
 						}
 					}
+				}
+			}
+		}
+		// the unscoped set kept in a field of its own: stored only where no object was given, or the
+		// object's type is the sentinel type itself (which used to select the same slot)
+		for _, b := range fn.Blocks {
+			for _, ins := range b.Instrs {
+				st, ok := ins.(*ssa.Store)
+				if !ok || len(fn.Params) < 2 || st.Val != ssa.Value(fn.Params[1]) {
+					continue
+				}
+				fa, ok := st.Addr.(*ssa.FieldAddr)
+				if !ok || fa.X != ssa.Value(fn.Params[0]) || !isNamed(st.Val.Type(), ModPath+"/valid", "RM") {
+					continue
+				}
+				upd++
+				guarded := false
+				for d := b; d != nil; d = d.Idom() {
+					if len(d.Preds) != 1 {
+						continue
+					}
+					q := d.Preds[0]
+					iff, ok := q.Instrs[len(q.Instrs)-1].(*ssa.If)
+					if !ok || len(q.Succs) != 2 {
+						continue
+					}
+					bo, ok := iff.Cond.(*ssa.BinOp)
+					if !ok {
+						continue
+					}
+					onTrue := q.Succs[0] == d
+					isSentinel := func(v ssa.Value) bool {
+						ld, ok := v.(*ssa.UnOp)
+						if !ok {
+							return false
+						}
+						g, ok := ld.X.(*ssa.Global)
+						return ok && g.Name() == "validOnlyOuterObj"
+					}
+					isLenObj := func(v ssa.Value) bool {
+						call, ok := v.(*ssa.Call)
+						return ok && calleeName(&call.Call) == "builtin.len" && len(fn.Params) >= 3 && call.Call.Args[0] == ssa.Value(fn.Params[2])
+					}
+					switch {
+					case (isSentinel(bo.X) || isSentinel(bo.Y)) && ((bo.Op == token.EQL && onTrue) || (bo.Op == token.NEQ && !onTrue)):
+						guarded = true
+					case isLenObj(bo.X) && bo.Op == token.EQL && onTrue:
+						if k, ok := constInt(bo.Y); ok && k == 0 {
+							guarded = true
+						}
+					case isLenObj(bo.X) && bo.Op == token.GTR && !onTrue:
+						if k, ok := constInt(bo.Y); ok && k == 0 {
+							guarded = true
+						}
+					}
+				}
+				if !guarded {
+					bad = append(bad, "the rule set is stored as the unscoped set ("+fieldAddrName(fa)+") on a path where an object of another type was given")
 				}
 			}
 		}
@@ -482,4 +559,31 @@ func runC16Delegate(c *Ctx) {
 		}
 		c.Check(len(bad) == 0, "C16-DELEGATE", fnName(fn), "delegates", fn.Pos(), "returns vc.getValidFn(name)", uniqJoin(bad, 2))
 	}
+}
+
+
+// isUnscopedField: expr is "v.<field>" for a field of VStruct of type RM (the unscoped rule set
+// kept in a field of its own).
+func isUnscopedField(p *Prog, expr string) bool {
+	if !strings.HasPrefix(expr, "v.") || strings.ContainsAny(expr[2:], ".[(") {
+		return false
+	}
+	sp := p.Pkg("valid")
+	if sp == nil {
+		return false
+	}
+	tn := sp.Type("VStruct")
+	if tn == nil {
+		return false
+	}
+	st, ok := tn.Type().Underlying().(*types.Struct)
+	if !ok {
+		return false
+	}
+	for i := 0; i < st.NumFields(); i++ {
+		if st.Field(i).Name() == expr[2:] && isNamed(st.Field(i).Type(), ModPath+"/valid", "RM") {
+			return true
+		}
+	}
+	return false
 }
